@@ -154,7 +154,23 @@ def voted(m, w, cand=N1, voter=N2):
     return w
 
 
-SEEDS = dict(voted=voted, fresh=fresh, steady=steady, lagging=lagging, lagging_snap=lagging_snap, deposed=deposed,
+def version_snap(m, w, leader=N1, ver=1, lag=None, do_compact=True):
+    """Follower `lag` cut off; the others switch to code version `ver`, run a command with it and
+    the leader compacts: `lag` will catch up from a snapshot taken after the switch."""
+    lag = lag or addr(m.cfg.n)
+    w = steady(m, w, 0, leader)
+    w = m.isolate(w, lag)
+    rest = [n for n, _ in w.nodes if n != lag]
+    w = m.do(w, ('V', leader, ver, 'free'), ('Z', leader))
+    w = m.drain(w, only=rest)
+    w = beat(m, w, leader, only=rest, times=3)
+    w = submit(m, w, leader, 1, only=rest)
+    if do_compact:
+        w = compact(m, w, leader)
+    return w
+
+
+SEEDS = dict(voted=voted, version_snap=version_snap, fresh=fresh, steady=steady, lagging=lagging, lagging_snap=lagging_snap, deposed=deposed,
              deposed_snap=deposed_snap, deposed_twice=deposed_twice, pending=pending, reconnect_pipeline=reconnect_pipeline,
              forwarded=forwarded, fig8=fig8)
 
